@@ -2,7 +2,8 @@
 C06 — a wake-up for a suspended future operation is never lost.
 -/
 import DesyncModel.Spec
-import DesyncModel.Tables
+import DesyncModel.Tables.Push
+import DesyncModel.Tables.Wake
 
 namespace Desync.C06
 open Desync Gen
